@@ -1303,6 +1303,9 @@ Definition ws_ok (l : list litem) : bool := forallb litem_ws_ok l.
 Lemma ws_ok_app : forall a b, ws_ok (a ++ b) = ws_ok a && ws_ok b.
 Proof. intros. apply forallb_app. Qed.
 
+Lemma ws_ok_cons : forall x l, ws_ok (x :: l) = litem_ws_ok x && ws_ok l.
+Proof. reflexivity. Qed.
+
 Lemma ws_ok_sepl : forall sep xs, ws_ok sep = true -> Forall (fun x => ws_ok x = true) xs -> ws_ok (sepl sep xs) = true.
 Proof.
   intros sep xs Hsep H. induction xs as [|x [|y xs] IH]; [reflexivity|now inversion H|].
@@ -1319,32 +1322,27 @@ Lemma lay_aty_ws : forall t, ws_ok (lay_aty t) = true.
 Proof.
   induction t as [n|n|a b IHa IHb|a IHa| |k|ts IHts|a n IHa|a k IHa] using aty_ind'; cbn [lay_aty];
     try reflexivity;
-    try (change (ws_ok (?x :: ?l)) with (litem_ws_ok x && ws_ok l); rewrite !ws_ok_app, ?IHa, ?IHb; reflexivity).
-  change (ws_ok (?x :: ?l)) with (litem_ws_ok x && ws_ok l). rewrite !ws_ok_app.
+    try (rewrite ?ws_ok_cons, ?ws_ok_app, ?ws_ok_cons, ?ws_ok_app, ?IHa, ?IHb; reflexivity).
+  rewrite ws_ok_cons, !ws_ok_app.
   rewrite ws_ok_sepl; [destruct (one ts); reflexivity|reflexivity|apply ws_ok_map; exact IHts].
 Qed.
 
 Lemma lay_pat_ws : forall p, ws_ok (lay_pat p) = true.
 Proof.
   induction p as [x| |ps IHps|ps IHps] using pat_ind'; cbn [lay_pat]; try reflexivity;
-    change (ws_ok (?x :: ?l)) with (litem_ws_ok x && ws_ok l); rewrite !ws_ok_app;
+    rewrite ws_ok_cons, !ws_ok_app;
     (rewrite ws_ok_sepl; [try destruct (one ps); reflexivity|reflexivity|apply ws_ok_map; exact IHps]).
 Qed.
 
 Lemma lay_mpat_ws : forall m, ws_ok (lay_mpat m) = true.
 Proof.
-  destruct m; cbn [lay_mpat]; try reflexivity;
-    do 4 (change (ws_ok (?x :: ?l)) with (litem_ws_ok x && ws_ok l)); rewrite ws_ok_app, lay_aty_ws; reflexivity.
+  destruct m; cbn [lay_mpat]; try reflexivity; rewrite !ws_ok_cons, ws_ok_app, lay_aty_ws; reflexivity.
 Qed.
 
 Lemma lay_callname_ws : forall c, ws_ok (lay_callname c) = true.
 Proof.
-  destruct c; cbn [lay_callname]; try reflexivity;
-    change (ws_ok (?x :: ?l)) with (litem_ws_ok x && ws_ok l); rewrite ws_ok_app, lay_aty_ws; reflexivity.
+  destruct c; cbn [lay_callname]; try reflexivity; rewrite ws_ok_cons, ws_ok_app, lay_aty_ws; reflexivity.
 Qed.
-
-Lemma ws_ok_cons : forall x l, ws_ok (x :: l) = litem_ws_ok x && ws_ok l.
-Proof. reflexivity. Qed.
 
 Lemma lay_expr_ws : forall e, ws_ok (lay_expr e) = true.
 Proof.
@@ -1360,18 +1358,18 @@ Proof.
     rewrite !ws_ok_cons, ws_ok_app. rewrite ws_ok_sepl; [reflexivity|reflexivity|].
     apply Forall_app. split.
     + apply ws_ok_map. eapply Forall_impl; [|exact Hss]. intros [[[p t]|] e1] He; cbn [snd] in He;
-        cbn [lay_stmt]; unfold lay_let; rewrite ?ws_ok_cons, ?ws_ok_app, ?lay_pat_ws, ?lay_aty_ws, He; reflexivity.
+        cbn [lay_stmt]; unfold lay_let; repeat (rewrite ws_ok_cons || rewrite ws_ok_app); rewrite ?lay_pat_ws, ?lay_aty_ws, He; reflexivity.
     + destruct l as [e1|]; constructor; [exact Hl|constructor].
   - cbn [lay_expr]. rewrite ws_ok_app, lay_callname_ws, ws_ok_cons, ws_ok_app.
     rewrite ws_ok_sepl; [reflexivity|reflexivity|apply ws_ok_map; exact IHargs].
-  - cbn [lay_expr]. rewrite ?ws_ok_cons, ?ws_ok_app, ?ws_ok_cons, IHs, IHl, IHr, !lay_mpat_ws. reflexivity.
+  - cbn [lay_expr]. repeat (rewrite ws_ok_cons || rewrite ws_ok_app). rewrite IHs, IHl, IHr, !lay_mpat_ws. reflexivity.
 Qed.
 
 Lemma lay_item_ws : forall i, ws_ok (lay_item i) = true.
 Proof.
   destruct i as [n t|name ps ret body| ]; cbn [lay_item]; [| |reflexivity].
   - rewrite !ws_ok_cons, ws_ok_app, lay_aty_ws. reflexivity.
-  - rewrite !ws_ok_cons, !ws_ok_app, ws_ok_cons, lay_expr_ws.
+  - repeat (rewrite ws_ok_cons || rewrite ws_ok_app). rewrite lay_expr_ws.
     rewrite ws_ok_sepl; [|reflexivity|].
     + destruct ret as [t|]; [|reflexivity]. rewrite !ws_ok_cons, lay_aty_ws. reflexivity.
     + apply ws_ok_map. apply Forall_forall. intros [x t] _. unfold lay_param. rewrite !ws_ok_cons. apply lay_aty_ws.
